@@ -23,7 +23,7 @@ def fvecJ (l : List Float) : Json := listJ fenc l
 def fmatJ (A : Mat Float) : Json := listJ fvecJ A
 
 def fops : NumOps Float :=
-  ⟨Float.log, fun a b => a < b, fun a b => a ≤ b, Float.abs, fun a => a == 0.0⟩
+  ⟨Float.log, fun a b => a < b, fun a b => a ≤ b, Float.abs, fun a => a == 0.0, fun a => a < (1.0 / 0.0)⟩
 
 /-- The literals of the source as doubles: `n / d` is the correctly rounded quotient of two
 exactly representable integers, i.e. the double Python reads from the decimal literal. -/
@@ -34,7 +34,7 @@ def fconsts : Consts Float := Consts.ofGen ratToFloat
 
 def rops : NumOps Rat :=
   ⟨fun x => x, fun a b => decide (a < b), fun a b => decide (a ≤ b), fun a => if a < 0 then -a else a,
-   fun a => a == 0⟩
+   fun a => a == 0, fun _ => true⟩
 
 def rconsts : Consts Rat := Consts.ofGen id
 
